@@ -77,6 +77,8 @@ pub struct LayoutStats {
     pub non_data_last: bool,
     pub section_residues: Vec<u64>,
     pub cut_offsets_in_value: Vec<u64>,
+    pub max_packet_len: u64,
+    pub max_stream_len_in_packet: u64,
 }
 
 #[derive(Clone, Debug, Default)]
@@ -333,6 +335,10 @@ fn cv_section(pc: &PcRead, layout: &Layout, r: &mut Rng, stats: &mut LayoutStats
     for (k, pk) in packets.iter().enumerate() {
         let chunks: Vec<&[u8]> = (0..n).map(|i| &streams[i][pk[i].0..pk[i].1]).collect();
         let p = data_packet(&chunks);
+        stats.max_packet_len = stats.max_packet_len.max(p.len() as u64);
+        for c in &chunks {
+            stats.max_stream_len_in_packet = stats.max_stream_len_in_packet.max(c.len() as u64);
+        }
         if data_rel.is_none() {
             data_rel = Some(bytes.len() as u64);
         }
